@@ -668,6 +668,29 @@ def install_faults(w, scn):
 
                     acts.append(Action('fault', p, do, label=f'kill:{d}'))
 
+            if 'graceful' in kinds:      # clean stop (stop event -> shutdown, CLOSE messages, sockets closed) followed by a restart
+                for d in delays:
+                    def do(p=p, d=d):
+                        world.log.append({'ev': 'kill', 'f': p.name, 'inc': p.incarnation, 't': world.now, 'restart': d, 'graceful': True})
+                        p.user['evt'].set()
+
+                        if d is not None:
+                            def restart():
+                                if p.state != 'done':          # still winding down: try again shortly
+                                    world.at(50, restart, f'restart {p.name}')
+                                    return
+
+                                world.log.append({'ev': 'restart', 'f': p.name, 'inc': p.incarnation + 1, 't': world.now})
+                                world.start_filter(byname[p.name], p.incarnation + 1)
+
+                            world.at(d, restart, f'restart {p.name}')
+
+                        if (after := spec.get('after_ms')) is not None:
+                            world.horizon_ms = world.now + (d or 0) + after
+                            world.quiet_ms   = None
+
+                    acts.append(Action('fault', p, do, label=f'graceful:{d}'))
+
             if 'stop' in kinds:
                 def do(p=p):
                     world.log.append({'ev': 'set_stop', 'f': p.name, 'inc': p.incarnation, 't': world.now})
